@@ -24,6 +24,12 @@ T_Sign ==
         /\ NoDuplicates(e.rrs)
         /\ SignedData(f, e.rrs) = e.res.buf
         /\ SignerOctets(f, e.rrs) = e.res.buf
+        \* sign_sorted_rrset_in with the scratch buffer every earlier call used
+        \* (e.pre: the backend failed once and the call was retried / the
+        \* buffer was not empty on entry): each hand-over is this RRset's
+        \* signed data, the final RRSIG is the same as sign_rrset's
+        /\ \A i \in 1..Len(e.res.bufs_in) : e.res.bufs_in[i] = SignedData(f, e.rrs)
+        /\ e.res.last_ok
         /\ signed' = e.res.buf
 
 T_Validate ==
